@@ -13,6 +13,7 @@
 //!   rintr <i,i,..>                 read-call indices that return ErrorKind::Interrupted
 //!   rfail <offset>                 hard read error once <offset> bytes were delivered
 //!   wfail <offset>                 hard stdout write error once <offset> bytes were accepted
+//!   wonce                          the write error is transient: one call fails, later calls are accepted (and counted)
 //!   wshort <n,n,..>                max bytes accepted per stdout write call, cycling
 //!   wintr <i,i,..>                 stdout write-call indices returning Interrupted
 //!   efail <offset>                 same for stderr
@@ -76,6 +77,7 @@ struct Case {
     rintr: Vec<usize>,
     rfail: Option<usize>,
     wfail: Option<usize>,
+    wonce: bool,
     wshort: Vec<usize>,
     wintr: Vec<usize>,
     efail: Option<usize>,
@@ -193,6 +195,7 @@ struct WriteStats {
 
 struct MonWriter {
     fail: Option<usize>,
+    once: bool,
     short: Vec<usize>,
     intr: Vec<usize>,
     flushfail: bool,
@@ -206,6 +209,11 @@ impl Write for MonWriter {
         st.calls += 1;
         if st.errored {
             st.writes_after_error += 1;
+            if self.once {
+                // the sink has recovered: whatever is written now lands behind the gap
+                st.bytes.extend_from_slice(buf);
+                return Ok(buf.len());
+            }
             return Err(io::Error::new(fault_kind(self.fail.unwrap_or(0), false), "injected write fault (repeated)"));
         }
         if self.intr.contains(&call) {
@@ -392,6 +400,7 @@ fn run_case(case: &Case) -> Obs {
                     };
                     let stdout: Rc<RefCell<dyn Write + Send>> = Rc::new(RefCell::new(MonWriter {
                         fail: case.wfail,
+                        once: case.wonce,
                         short: case.wshort.clone(),
                         intr: case.wintr.clone(),
                         flushfail: case.flushfail,
@@ -399,6 +408,7 @@ fn run_case(case: &Case) -> Obs {
                     }));
                     let stderr: Rc<RefCell<dyn Write + Send>> = Rc::new(RefCell::new(MonWriter {
                         fail: case.efail,
+                        once: false,
                         short: vec![],
                         intr: vec![],
                         flushfail: false,
@@ -574,6 +584,7 @@ fn serve() {
             "rintr" => case.rintr = ints(rest[0]),
             "rfail" => case.rfail = Some(rest[0].parse().unwrap()),
             "wfail" => case.wfail = Some(rest[0].parse().unwrap()),
+            "wonce" => case.wonce = true,
             "wshort" => case.wshort = ints(rest[0]),
             "wintr" => case.wintr = ints(rest[0]),
             "efail" => case.efail = Some(rest[0].parse().unwrap()),
